@@ -76,6 +76,9 @@ let () =
           let st = ref (acc_init cap) in
           (* INSTALL k: [lag_old] = the state of the lagging replica (it stops applying);
              !st goes on as the state of the replica that applies the log *)
+          (* SAVE / RESTART: [image] = the latest snapshot image of this replica (taken by
+             SAVE, SNAP or installed), [since] = the entries it applied after it (newest first) *)
+          let image = ref None and since = ref [] in
           let lag_old = ref None and lag_left = ref 0 and install_due = ref false in
           let do_install k =
             match !lag_old with
@@ -89,11 +92,18 @@ let () =
                   | None -> Printf.printf "%s %d INSTALLFAIL\n" id k
                   | Some st' ->
                     Printf.printf "%s %d S %s sm=%s\n" id k (show_sessions (fst sv) (snd sv)) (string_of_n (le_dec smb));
-                    st := st';
+                    st := st'; image := Some sn; since := [];
                     Printf.printf "%s %d T %s sm=%s\n" id k (show_table st'.st_tab) (string_of_n st'.st_sm))) in
+          let pend = ref None (* (line, entries left) of a SAVE whose observation is not printed yet *) in
+          let close_save () = match !pend with
+            | Some (line, _) -> pend := None; print_string line
+            | None -> () in
           let ops = split_ops body in
           List.iteri (fun k o ->
             if !install_due then begin install_due := false; do_install (k - 1) end;
+            (match !pend with
+             | Some (_, left) when left <= 0 || (match split_ws o with "E" :: _ -> false | _ -> true) -> close_save ()
+             | _ -> ());
             let w = split_ws o in
             if !lag_left > 0 && (match w with "E" :: _ -> false | _ -> true) then
               Printf.printf "%s %d skip\n" id k
@@ -108,6 +118,10 @@ let () =
                         e_responded = n_of_string r; e_cmd = bytes_of_hex cmd } in
               let (st', out) = acc_step !st e in
               st := st';
+              if !lag_left = 0 then begin
+                since := e :: !since;
+                (match !pend with Some (l, left) -> pend := Some (l, left - 1) | None -> ())
+              end;
               if !lag_left > 0 then begin
                 Printf.printf "%s %d L %s\n" id k (show_outcome out);
                 decr lag_left;
@@ -122,8 +136,24 @@ let () =
                  (match acc_restore sn with
                   | None -> Printf.printf "%s %d SNAPFAIL\n" id k
                   | Some st' ->
-                    st := st';
+                    st := st'; image := Some sn; since := [];
                     Printf.printf "%s %d T %s sm=%s\n" id k (show_table st'.st_tab) (string_of_n st'.st_sm)))
+            | ["SAVE"] | ["SAVE"; _] ->
+              let n = (match w with [_; x] -> int_of_string x | _ -> 0) in
+              (match acc_snapshot !st with
+               | None -> Printf.printf "%s %d SAVEFAIL\n" id k
+               | Some (((sv, smb) as sn), st') ->
+                 st := st'; image := Some sn; since := [];
+                 pend := Some (Printf.sprintf "%s %d S %s sm=%s\n" id k (show_sessions (fst sv) (snd sv)) (string_of_n (le_dec smb)), n))
+            | ["RESTART"] ->
+              let base = (match !image with Some sn -> acc_restore sn | None -> Some (acc_init cap)) in
+              (match base with
+               | None -> Printf.printf "%s %d RESTARTFAIL\n" id k
+               | Some b ->
+                 Printf.printf "%s %d R %s sm=%s\n" id k (show_table b.st_tab) (string_of_n b.st_sm);
+                 let st' = List.fold_left (fun s e -> fst (acc_step s e)) b (List.rev !since) in
+                 st := st';
+                 Printf.printf "%s %d T %s sm=%s\n" id k (show_table st'.st_tab) (string_of_n st'.st_sm))
             | ["H"] ->
               (match acc_save_table !st.st_tab with
                | None -> Printf.printf "%s %d H panic\n" id k
@@ -135,6 +165,7 @@ let () =
             | ["CAP"] -> Printf.printf "%s %d CAP %s\n" id k (string_of_n default_cap)
             | w :: _ -> Printf.printf "%s %d ? %s\n" id k w
             | [] -> ()) ops;
+          close_save ();
           if !lag_left > 0 || !install_due then do_install (List.length ops);
           Printf.printf "%s end T %s sm=%s\n" id (show_table !st.st_tab) (string_of_n !st.st_sm)
         end
